@@ -200,11 +200,8 @@ func isPow2(x int64) (int, bool) {
 
 func (st *State) ufun(name string, nargs int, ret string) string {
 	n := sym(name)
-	if !st.g.ufuns[name] {
-		st.g.ufuns[name] = true
-		args := strings.TrimSpace(strings.Repeat("Int ", nargs))
-		st.g.decls = append(st.g.decls, fmt.Sprintf("(declare-fun %s (%s) %s)", n, args, ret))
-	}
+	args := strings.TrimSpace(strings.Repeat("Int ", nargs))
+	st.g.declare(n, fmt.Sprintf("(declare-fun %s (%s) %s)", n, args, ret))
 	return n
 }
 
@@ -329,7 +326,7 @@ func (st *State) binop(op token.Token, x, y Val, xt, yt, rt types.Type, xv, yv s
 			}
 		}
 	case token.XOR:
-		f := st.ufun(fmt.Sprintf("xor%d", bits), 2, "Int")
+		f := st.ufun(fmt.Sprintf("U:xor%d", bits), 2, "Int")
 		r := fmt.Sprintf("(%s %s %s)", f, a, b)
 		st.assumeRange(rt, r)
 		return IntV(r)
@@ -455,7 +452,7 @@ func (st *State) execInstr(in ssa.Instruction) {
 	case *ssa.DebugRef:
 	case *ssa.Alloc:
 		elem := x.Type().(*types.Pointer).Elem()
-		a := st.alloc("alloc." + x.Comment)
+		a := st.alloc("alloc."+x.Comment, fmt.Sprint(st.g.P.sizeof(elem)))
 		p := st.ptrTo(elem, a)
 		st.derefStore(p, elem, st.zero(elem))
 		if p.K == KLoc {
@@ -477,7 +474,7 @@ func (st *State) execInstr(in ssa.Instruction) {
 		case *types.Slice:
 			st.boundsCheck(iv.T, xv.Fs[1].T, "slice index")
 			sz := st.g.P.sizeof(u.Elem())
-			a := fmt.Sprintf("(+ %s (* %s %d))", xv.Fs[0].T, iv.T, sz)
+			a := fmt.Sprintf("(+ %s %s)", xv.Fs[0].T, mulC(iv.T, sz))
 			if c, ok := isConstInt(x.Index); ok {
 				a = addOff(xv.Fs[0].T, c*sz)
 			}
@@ -519,7 +516,7 @@ func (st *State) execInstr(in ssa.Instruction) {
 		case *types.Pointer, *types.Signature, *types.Chan, *types.Map, *types.Interface:
 			st.fr.regs[x] = st.toScalar(v)
 		default:
-			b := st.alloc("box")
+			b := st.alloc("box", "8")
 			st.storeAt(x.X.Type(), b, v)
 			st.fr.regs[x] = IntV(b)
 		}
@@ -556,18 +553,18 @@ func (st *State) execInstr(in ssa.Instruction) {
 		g := fmt.Sprintf("(and (<= 0 %s) (<= %s %s))", ln.T, ln.T, cp.T)
 		st.oblige("nopanic[makeslice]", g, "make len/cap")
 		st.assume(g)
-		a := st.alloc("make")
+		a := st.alloc("make", fmt.Sprintf("(* %s %d)", cp.T, st.g.P.sizeof(t.Elem())))
 		st.zeroRegion(t.Elem(), a, cp.T)
 		st.fr.regs[x] = Val{K: KSlice, Fs: []Val{IntV(a), ln, cp}}
 	case *ssa.MakeMap:
-		m := st.alloc("map")
+		m := st.alloc("map", "8")
 		mt := x.Type().Underlying().(*types.Map)
 		hn, _ := mapHeaps(mt)
 		has := st.cur(hn+"#has", "(Array Int (Array Int Bool))")
 		st.assume(fmt.Sprintf("(= (select %s %s) ((as const (Array Int Bool)) false))", has, m))
 		st.fr.regs[x] = IntV(m)
 	case *ssa.MakeChan:
-		c := st.alloc("chan")
+		c := st.alloc("chan", "8")
 		h := st.cur("chan.cap", "(Array Int Int)")
 		st.assume(fmt.Sprintf("(= (select %s %s) %s)", h, c, st.val(x.Size).T))
 		st.fr.regs[x] = IntV(c)
@@ -621,7 +618,7 @@ func (st *State) zeroRegion(elem types.Type, a string, n string) {
 	h := st.cur(l.Heap, locSort(l))
 	z := st.zero(elem).T
 	sz := st.g.P.sizeof(elem)
-	st.assume(fmt.Sprintf("(forall ((zi Int)) (! (=> (and (<= 0 zi) (< zi %s)) (= (select %s (+ %s (* zi %d))) %s)) :pattern ((select %s (+ %s (* zi %d))))))", n, h, a, sz, z, h, a, sz))
+	st.assume(fmt.Sprintf("(forall ((za Int)) (! (=> (and (<= %s za) (< za (+ %s %s))) (= (select %s za) %s)) :pattern ((select %s za))))", a, a, mulC(n, sz), h, z, h))
 }
 
 func (st *State) unop(x *ssa.UnOp) Val {
@@ -694,7 +691,7 @@ func (st *State) sliceOp(x *ssa.Slice) Val {
 	sz := st.g.P.sizeof(elem)
 	np := ptr
 	if lo != "0" {
-		np = fmt.Sprintf("(+ %s (* %s %d))", ptr, lo, sz)
+		np = fmt.Sprintf("(+ %s %s)", ptr, mulC(lo, sz))
 	}
 	nl := fmt.Sprintf("(- %s %s)", hi, lo)
 	if lo == "0" {
